@@ -123,6 +123,9 @@ func randName(r *hx.Rand) string {
 	return strings.Join(parts, ".")
 }
 
+var sniffOps, sniffImpl []string
+var sniffWF []bool
+
 type hcase struct {
 	stream []byte // everything the client sends (hello + payload)
 	name   string
@@ -298,6 +301,12 @@ func runOp(op string, rep *hx.Report, c *hcase) string {
 	if sc.consumed > 5+65535 {
 		rep.Fail("hello-unbounded-read", fmt.Sprintf("HelloInfo pulled %d bytes from the connection", sc.consumed), []string{op})
 	}
+	// what crypto/tls reported for the record, for the grammar model (`sniff` op)
+	if res == "ok" && len(whole) >= 5 && len(whole) >= 5+(int(whole[3])<<8|int(whole[4])) {
+		sniffOps = append(sniffOps, "sniff "+hx.Hex(whole[:5+(int(whole[3])<<8|int(whole[4]))]))
+		sniffImpl = append(sniffImpl, fmt.Sprintf("name=%s n=%d first=%s", hx.Hex([]byte(info.ServerName)), info.ProtoCount, hx.Hex([]byte(info.FirstProto))))
+		sniffWF = append(sniffWF, c != nil && c.wf)
+	}
 	if c != nil && c.wf {
 		if res != "ok" {
 			rep.Fail("wellformed-hello-rejected:"+res, fmt.Sprintf("a well-formed %d-byte ClientHello record was not inspected: %s", len(c.stream), res), []string{op})
@@ -417,6 +426,28 @@ func main() {
 			}
 		}
 		rep.TracesValidated = len(ops)
+		// the ClientHello grammar model against crypto/tls: exact on well-formed hellos; on anything
+		// else only the sound direction (a non-empty name reported by the library is what the model reads)
+		sm, err := hx.RunDriver(f.Driver, nil, sniffOps)
+		if err != nil {
+			rep.Note("driver failed on sniff ops: %v", err)
+		} else {
+			for i := range sniffOps {
+				rep.Count("sniff")
+				if sm[i] == sniffImpl[i] {
+					continue
+				}
+				emptyImpl := strings.HasPrefix(sniffImpl[i], "name=- ")
+				if !sniffWF[i] && emptyImpl && (sm[i] == "reject" || strings.HasPrefix(sm[i], "name=- ")) {
+					continue
+				}
+				if !sniffWF[i] && emptyImpl {
+					continue // the library may be stricter than the model on malformed input
+				}
+				rep.Disagree("hello-grammar", trunc(sniffOps[i]), sniffImpl[i], sm[i])
+			}
+			rep.TracesValidated += len(sniffOps)
+		}
 	}
 	rep.Write(f.Out)
 }
